@@ -80,6 +80,17 @@ def scen_tidy(rng):
     return s
 
 
+def scen_modes(rng, real):
+    """a pass whose `new` resets the mode of the test case (LinesPass reformats through a 0600 temporary file), one test case
+    on which it then makes progress and one on which no candidate is accepted; modes other than 0600"""
+    spec = {'name': 'lines', 'arg': '0'} if real else {'name': 'LinePass', 'arg': 'chmod'}
+    return {'name': 'modes:' + ('lines0' if real else 'stub'),
+            'tree': {'a.c': {'text': 'int keep1;\nint x;\nint y;\n', 'mode': '644'}, 'sub/b.c': {'text': 'int only;\n', 'mode': '640'}},
+            'test_cases': ['a.c', 'sub/b.c'], 'predicate': 'grep -q keep1 a.c && grep -q only sub/b.c',
+            'groups': {'first': [], 'main': [spec], 'last': []}, 'N': rng.choice([1, 2]), 'timeout': 5,
+            'mode': rng.choice(['pass', 'reduce']), 'external': {'topformflat': 'standin:topformflat'}}
+
+
 def scen_real_pass(rng, which):
     ext = {'unifdef': 'standin:unifdef', 'topformflat': 'standin:topformflat', 'clang_delta': 'standin:clang_delta'}
     text = 'int keep1;\n#if FOO\nint a;\n#else\nint b;\n#endif\n\n// c\nint x; /* d */\n#if BAR\nint y;\n#endif\n# 1 "f.h"\n#include <s.h>\nint z = (1 ? 2 : 3);\n'
